@@ -286,6 +286,11 @@ func genField(rng *rand.Rand, sb *strings.Builder, class string, s, f int, gener
 		sb.WriteString(" /* 备注 note */ /* " + prefix + "@tag " + kvString(inject, " ") + " */\n")
 	} else if class == "G6" && rng.Intn(4) == 0 {
 		sb.WriteString(" /* " + prefix + "@tag " + kvString(inject, " ") + " */\n")
+	} else if (class == "G6" || class == "G3" || class == "G1") && rng.Intn(6) == 0 {
+		// no blank after the slashes: comments that look like directives (//nolint:lll, //todo:x,
+		// //export, //go:build-like text) are comments all the same, and an annotation may follow directly
+		lead := []string{"nolint:lll ", "todo:x ", "export Name ", "go:norace ", "", "extern x ", "lint:ignore U1000 "}[rng.Intn(7)]
+		sb.WriteString(" //" + lead + prefix + "@tag " + kvString(inject, " ") + trail + "\n")
 	} else {
 		sb.WriteString(" // " + prefix + "@tag " + kvString(inject, " ") + trail + "\n")
 	}
